@@ -254,20 +254,27 @@ def C_must_pass(b, start, targets):
 def stat_roles(cad):
     """public SinkStats field -> the private SocketStats counter it is read from (from `From<&SocketStats> for SinkStats`);
     None unless the four public figures come from four distinct counters"""
-    fr = [b for b in cad.all_bodies if b.impl_trait == 'core::convert::From' and (b.impl_self or '') == 'cadence::sinks::core::SinkStats' and b.name == 'from']
-    if len(fr) != 1:
+    # the snapshot function(s): `From<&SocketStats> for SinkStats` and/or an inherent `snapshot(&self) -> SinkStats`
+    fr = [b for b in cad.all_bodies if b.def_kind in ('Fn', 'AssocFn') and b.arg_count == 1 and
+          b.locals[1].lstrip('&').strip() == SS and b.locals[1].startswith('&') and b.locals[0].strip() == 'cadence::sinks::core::SinkStats']
+    if not fr:
         return None
-    rts = ret_terms(Terms(inl(cad, fr[0])), [0])
-    if len(rts) != 1 or list(rts)[0][0] != 'adt':
-        return None
-    out = {}
-    for n_, v in list(rts)[0][3]:
-        if not term_callee_is(v, 'core::sync::atomic::Atomic::load'):
+    res = None
+    for f_ in fr:
+        rts = ret_terms(Terms(inl(cad, f_)), [0])
+        if len(rts) != 1 or list(rts)[0][0] != 'adt':
             return None
-        out[n_] = leaf_field_name(v[2][0])
-    if len(out) != 4 or len(set(out.values())) != 4 or None in out.values():
-        return None
-    return out
+        out = {}
+        for n_, v in list(rts)[0][3]:
+            if not term_callee_is(v, 'core::sync::atomic::Atomic::load'):
+                return None
+            out[n_] = leaf_field_name(v[2][0])
+        if len(out) != 4 or len(set(out.values())) != 4 or None in out.values():
+            return None
+        if res is not None and res != out:
+            return None         # two snapshot functions that disagree
+        res = out
+    return res
 
 
 def rule_classification(ctx, rep, rid='R2'):
@@ -326,12 +333,24 @@ def rule_classification(ctx, rep, rid='R2'):
         rep.ob(rid, 'update/%s-side' % side, not bad, b.where(), 'exactly the %s counters, one atomic fetch_add each' % side if not bad else
                'on the %s edge the counters are updated wrongly: %s' % (side, '; '.join(bad)))
 
+    def core_amount(a):
+        """the usize behind `x as u64` / `u64::try_from(x).unwrap_or(..)` (usize -> u64 cannot fail: the fallback is dead)"""
+        from .values import checked_conv
+        if a[0] == 'cast':
+            return a[4]
+        alts = flatten_phi(a)
+        conv = [checked_conv(y) for y in alts]
+        srcs = set(c[1] for c in conv if c is not None and c[0] == 'u64')
+        if len(srcs) == 1 and all(c is not None or y[0] == 'const' for c, y in zip(conv, alts)) and list(srcs)[0] in (n_ok, ('param', 3)):
+            return list(srcs)[0]
+        return a
+
     def amt_n(a):
-        a2 = a[4] if a[0] == 'cast' else a
+        a2 = core_amount(a)
         return a2 == n_ok or a2 == ('param', 3)
 
     def amt_len(a):
-        a2 = a[4] if a[0] == 'cast' else a
+        a2 = core_amount(a)
         return a2 == ('param', 3)
 
     def amt_one(a):
@@ -348,8 +367,9 @@ def rule_classification(ctx, rep, rid='R2'):
         ms = cad.method(SS, 'incr_' + fld)
         if len(ms) != 1:
             continue
-        Tm = Terms(ms[0])
-        calls = [norm(Tm.call_term(bi)) for bi, t in ms[0].calls() if 'core::sync::atomic::Atomic::' in strip_generics(t.get('callee_full', ''))]
+        mb_ = inl(cad, ms[0])
+        Tm = Terms(mb_)
+        calls = [norm(Tm.call_term(bi)) for bi, t in mb_.calls() if 'core::sync::atomic::Atomic::' in strip_generics(t.get('callee_full', '')) and not mb_.blocks[bi]['cleanup']]
         ok = len(calls) == 1 and calls[0][1].endswith('::fetch_add') and leaf_field_name(calls[0][2][0]) == fld
         rep.ob(rid, 'incr_%s/single-rmw-on-own-field' % fld, ok, ms[0].where(), 'one fetch_add on %s' % fld if ok else 'incr_%s does %s' % (fld, [fmt(c)[:80] for c in calls]))
 
@@ -409,8 +429,17 @@ def rule_shared_counters(ctx, rep, rid='R3'):
         rts = ret_terms(Terms(sb), [0])
         ok = len(rts) == 1 and (term_callee_is(list(rts)[0], 'as core::convert::Into>::into') or term_callee_is(list(rts)[0], 'as core::convert::From>::from')) and \
             self_field_name(list(rts)[0][2][0]) == stats_field(cad, adt)
+        if not ok:
+            # written out / through a snapshot helper: every public figure is a load of its own counter of self.stats
+            roles_ = stat_roles(cad)
+            rts = ret_terms(Terms(inl(cad, sb)), [0])
+            if roles_ and len(rts) == 1 and list(rts)[0][0] == 'adt' and list(rts)[0][1] == 'cadence::sinks::core::SinkStats':
+                fs_ = dict(list(rts)[0][3])
+                ok = set(fs_) == set(roles_) and all(
+                    term_callee_is(v_, 'core::sync::atomic::Atomic::load') and leaf_field_name(v_[2][0]) == roles_[n_] and
+                    self_field_name(v_[2][0]) == stats_field(cad, adt) for n_, v_ in fs_.items())
         k += 1
-        rep.ob(rid, '%s/stats-is-snapshot-of-own-counters' % name, ok, sb.where(), 'stats() = (&self.stats).into()')
+        rep.ob(rid, '%s/stats-is-snapshot-of-own-counters' % name, ok, sb.where(), 'stats() = snapshot of self.stats (each figure loaded from its own counter)')
     rep.floor(rid, 'socket sinks with stats()', k, 4)
 
 
